@@ -1249,4 +1249,810 @@ theorem NInv.of_update {E : Env} {now : Nat} {n n' : Node} {u : Url} {f : Fetch}
       rw [← heq, hid, hnm] at this; cases this
     · exact h.crec u' rec0 hu' hc
 
+/-! ## two nodes -/
+
+@[simp] theorem get_set_same (w : World) (i : Bool) (n : Node) : (w.set i n).get i = n := by
+  cases i <;> simp [World.get, World.set]
+@[simp] theorem get_set_other (w : World) (i : Bool) (n : Node) : (w.set i n).get (!i) = w.get (!i) := by
+  cases i <;> simp [World.get, World.set]
+theorem get_set (w : World) (i k : Bool) (n : Node) : (w.set i n).get k = if k = i then n else w.get k := by
+  cases i <;> cases k <;> simp [World.get, World.set]
+@[simp] theorem set_now (w : World) (i : Bool) (n : Node) : (w.set i n).now = w.now := by cases i <;> rfl
+@[simp] theorem set_hosts (w : World) (i : Bool) (n : Node) : (w.set i n).hosts = w.hosts := by cases i <;> rfl
+@[simp] theorem set_log (w : World) (i : Bool) (n : Node) : (w.set i n).log = w.log := by cases i <;> rfl
+
+/-- what a downloaded credential must be when the URL is a status list URL of one of the two nodes -/
+def FetchOK (w : World) (u : Url) (f : Fetch) : Prop :=
+  ∀ v, f = .vc v → ∀ k iss p, u = .sl (w.get k).base iss p → Served (w.get k) u v ∧ v.proof.isSome = true
+
+/-- the table-level transitions every operation is composed of -/
+inductive WPrim (E : Env) (K : KeyEnv) : World → World → Prop where
+  | entry (w : World) (k : Bool) (issuer kid : String) (row : Option PageRow) (hk : E.keyOf issuer = some kid) :
+      WPrim E K w (w.set k (entryWrite E w.now (w.get k) issuer kid row).1)
+  | revoke (w : World) (k : Bool) (credId : String) (e : StatusEntry) (n' : Node)
+      (h : Nuts.C11.revoke E w.now (w.get k) credId e = .ok n') : WPrim E K w (w.set k n')
+  | cred (w : World) (k : Bool) (issuer : String) (page : Nat) (vc : VC) (n' : Node)
+      (h : credential E w.now (w.get k) issuer page = .ok (vc, n')) : WPrim E K w (w.set k n')
+  | update (w : World) (k : Bool) (u : Url) (f : Fetch) (rec : CredRec) (n' : Node) (hf : FetchOK w u f)
+      (hu : (w.get k).cred? u = none ∨ (w.get k).isManaged u = false)
+      (h : Nuts.C11.update E w.now (w.get k) u f = .ok (rec, n')) : WPrim E K w (w.set k n')
+  | register (w : World) (k : Bool) (r : Revocation) (n' : Node)
+      (h : registerRevocation K (w.get k) r = .ok n') : WPrim E K w (w.set k n')
+  | env (w : World) (hosts : List (String × (Nat → Fetch))) (now : Nat) (log : List Url) :
+      WPrim E K w { w with hosts := hosts, now := now, log := log }
+
+inductive WPath (E : Env) (K : KeyEnv) : World → World → Prop where
+  | refl (w : World) : WPath E K w w
+  | step {w1 w2 w3 : World} (h1 : WPath E K w1 w2) (h2 : WPrim E K w2 w3) : WPath E K w1 w3
+
+theorem WPath.trans {E : Env} {K : KeyEnv} {w1 w2 w3 : World} (h1 : WPath E K w1 w2) (h2 : WPath E K w2 w3) : WPath E K w1 w3 := by
+  induction h2 with
+  | refl => exact h1
+  | step _ hp ih => exact .step ih hp
+
+theorem WPath.one {E : Env} {K : KeyEnv} {w1 w2 : World} (h : WPrim E K w1 w2) : WPath E K w1 w2 := .step (.refl _) h
+
+structure WInv (E : Env) (w : World) : Prop where
+  na : NInv E w.a
+  nb : NInv E w.b
+  ne : w.a.base ≠ w.b.base
+
+theorem WInv.node {E : Env} {w : World} (h : WInv E w) (k : Bool) : NInv E (w.get k) := by
+  cases k
+  · exact h.na
+  · exact h.nb
+
+theorem registerRevocation_ok {K : KeyEnv} {n n' : Node} {r : Revocation} (h : registerRevocation K n r = .ok n') :
+    n' = { n with netRevs := n.netRevs ++ [r] } ∧
+    ∃ p pk, r.proof = some p ∧ prefixOf r.subject = r.issuer ∧ prefixOf p.vm = r.issuer ∧
+      K.resolveKey p.vm r.date = some pk ∧ K.sigOK pk r p.sig = true := by
+  unfold registerRevocation at h
+  split at h
+  · rename_i p hv
+    split at h
+    · cases h
+    · rename_i h1
+      split at h
+      · cases h
+      · rename_i h2
+        split at h
+        · cases h
+        · rename_i pk hpk
+          split at h
+          · cases h
+          · rename_i hs
+            simp only [Res.ok.injEq] at h
+            refine ⟨h.symm, p, pk, ?_, by simpa using h1, by simpa using h2, hpk, by simpa using hs⟩
+            unfold validateRevocation at hv
+            repeat (first | cases hv | split at hv)
+            assumption
+  · cases h
+  · cases h
+
+/-- base URL, managed lists, revocations and network revocations of each node only grow along a path -/
+structure NMono (n n' : Node) : Prop where
+  base : n'.base = n.base
+  managed : ∀ u, n.isManaged u = true → n'.isManaged u = true
+  revs : ∀ u j, j ∈ n.revsOf u → j ∈ n'.revsOf u
+  net : ∀ r, r ∈ n.netRevs → r ∈ n'.netRevs
+
+theorem NMono.refl (n : Node) : NMono n n := ⟨rfl, fun _ h => h, fun _ _ h => h, fun _ h => h⟩
+theorem NMono.trans {a b c : Node} (h1 : NMono a b) (h2 : NMono b c) : NMono a c :=
+  ⟨h2.base.trans h1.base, fun u h => h2.managed u (h1.managed u h), fun u j h => h2.revs u j (h1.revs u j h),
+   fun r h => h2.net r (h1.net r h)⟩
+
+theorem NMono.of_entryWrite (E : Env) (now : Nat) (n : Node) (issuer kid : String) (row : Option PageRow) :
+    NMono n (entryWrite E now n issuer kid row).1 := by
+  unfold entryWrite
+  cases entryDecide E now n issuer kid row with
+  | retry pin => exact NMono.refl n
+  | fail e => exact NMono.refl n
+  | update id last =>
+    simp only [Node.applyOut]
+    have hf : ∀ x : PageRow, (if x.id == id then { x with last := last } else x).id = x.id := by intro x; split <;> rfl
+    exact ⟨rfl, fun u h => by rw [isManaged_map n _ hf]; exact h, fun _ _ h => h, fun _ h => h⟩
+  | create nr rec =>
+    simp only [Node.applyOut]
+    refine ⟨rfl, ?_, fun _ _ h => h, fun _ h => h⟩
+    intro u h
+    obtain ⟨r, hr, e⟩ := isManaged_iff.mp h
+    exact isManaged_iff.mpr ⟨r, List.mem_cons_of_mem _ hr, e⟩
+
+theorem NMono.of_revoke {E : Env} {now : Nat} {n n' : Node} {credId : String} {e : StatusEntry}
+    (h : revoke E now n credId e = .ok n') : NMono n n' := by
+  obtain ⟨i, row, kid, vc, rec, _, _, _, _, _, _, _, rfl⟩ := revoke_ok h
+  refine ⟨rfl, fun _ h => h, ?_, fun _ h => h⟩
+  intro u j hj
+  have : (Node.putCred { n with revs := n.revs ++ [{ list := e.list, idx := i, credId := credId }] } rec).revsOf u =
+      ({ n with revs := n.revs ++ [{ list := e.list, idx := i, credId := credId }] } : Node).revsOf u := rfl
+  rw [this, revsOf_append]
+  split
+  · exact List.mem_append_left _ hj
+  · exact hj
+
+theorem NMono.of_credential {E : Env} {now : Nat} {n n' : Node} {issuer : String} {page : Nat} {vc : VC}
+    (h : credential E now n issuer page = .ok (vc, n')) : NMono n n' := by
+  obtain ⟨row, _, h1 | h1⟩ := credential_ok h
+  · obtain ⟨_, _, _, _, _, _, rfl⟩ := h1; exact NMono.refl _
+  · obtain ⟨_, _, _, _, rfl⟩ := h1; exact ⟨rfl, fun _ h => h, fun _ _ h => h, fun _ h => h⟩
+
+theorem NMono.of_update {E : Env} {now : Nat} {n n' : Node} {u : Url} {f : Fetch} {rec : CredRec}
+    (h : update E now n u f = .ok (rec, n')) : NMono n n' := by
+  obtain ⟨_, _, _, _, _, _, _, _, _, _, _, _, rfl⟩ := update_ok h
+  exact ⟨rfl, fun _ h => h, fun _ _ h => h, fun _ h => h⟩
+
+theorem NMono.of_register {K : KeyEnv} {n n' : Node} {r : Revocation} (h : registerRevocation K n r = .ok n') : NMono n n' := by
+  obtain ⟨rfl, _⟩ := registerRevocation_ok h
+  exact ⟨rfl, fun _ h => h, fun _ _ h => h, fun _ h => List.mem_append_left _ h⟩
+
+theorem NInv.of_register {E : Env} {K : KeyEnv} {n n' : Node} {r : Revocation} (hn : NInv E n)
+    (h : registerRevocation K n r = .ok n') : NInv E n' := by
+  obtain ⟨rfl, _⟩ := registerRevocation_ok h
+  exact { own := hn.own, le := hn.le, rng := hn.rng, fk := hn.fk, has := hn.has, crec := hn.crec, named := hn.named }
+
+/-- a primitive transition changes at most one node, by one of the node-level transitions -/
+theorem WPrim.nodes {E : Env} {K : KeyEnv} {w w' : World} (h : WPrim E K w w') (hw : WInv E w) :
+    WInv E w' ∧ ∀ k, NMono (w.get k) (w'.get k) := by
+  have key : ∀ (k : Bool) (n' : Node), NInv E n' → NMono (w.get k) n' → WInv E (w.set k n') ∧ ∀ k', NMono (w.get k') ((w.set k n').get k') := by
+    intro k n' hn hm
+    constructor
+    · cases k
+      · exact ⟨hn, hw.nb, by simp only [World.set, Bool.false_eq_true, if_false]; have := hm.base; simp only [World.get, Bool.false_eq_true, if_false] at this; rw [this]; exact hw.ne⟩
+      · exact ⟨hw.na, hn, by simp only [World.set, if_true]; have := hm.base; simp only [World.get, if_true] at this; rw [this]; exact hw.ne⟩
+    · intro k'
+      rw [get_set]
+      split
+      · rename_i e; subst e; exact hm
+      · exact NMono.refl _
+  cases h with
+  | entry k issuer kid row hk => exact key k _ ((hw.node k).of_entryWrite hk) (NMono.of_entryWrite ..)
+  | revoke k credId e n' h => exact key k _ ((hw.node k).of_revoke h) (NMono.of_revoke h)
+  | cred k issuer page vc n' h => exact key k _ ((hw.node k).of_credential h) (NMono.of_credential h)
+  | update k u f rec n' hf hu h => exact key k _ ((hw.node k).of_update hu h) (NMono.of_update h)
+  | register k r n' h => exact key k _ ((hw.node k).of_register h) (NMono.of_register h)
+  | env hosts now log => exact ⟨⟨hw.na, hw.nb, hw.ne⟩, fun k => by cases k <;> exact NMono.refl _⟩
+
+theorem WPath.nodes {E : Env} {K : KeyEnv} {w w' : World} (h : WPath E K w w') (hw : WInv E w) :
+    WInv E w' ∧ ∀ k, NMono (w.get k) (w'.get k) := by
+  induction h with
+  | refl => exact ⟨hw, fun k => NMono.refl _⟩
+  | step _ hp ih =>
+    obtain ⟨h1, h2⟩ := ih
+    obtain ⟨h3, h4⟩ := hp.nodes h1
+    exact ⟨h3, fun k => (h2 k).trans (h4 k)⟩
+
+set_option linter.unusedSimpArgs false
+
+/-! ## operations as paths of primitive transitions -/
+
+theorem set_get_self (w : World) (i : Bool) : w.set i (w.get i) = w := by cases i <;> rfl
+
+theorem FetchOK.fail (w : World) (u : Url) : FetchOK w u .fail := by intro v hv; cases hv
+theorem FetchOK.raw (w : World) (s : String) (f : Fetch) : FetchOK w (.raw s) f := by intro v _ k iss p h; cases h
+
+theorem download_path {E : Env} {K : KeyEnv} (hE : EnvOK E) {w : World} (hw : WInv E w) (u : Url) :
+    WPath E K w (download E w u).2 ∧ FetchOK (download E w u).2 u (download E w u).1 ∧ (download E w u).2.now = w.now := by
+  have hlog : WPath E K w { w with log := w.log ++ [u] } := WPath.one (WPrim.env w w.hosts w.now (w.log ++ [u]))
+  have hwl : WInv E { w with log := w.log ++ [u] } := ⟨hw.na, hw.nb, hw.ne⟩
+  unfold download
+  simp only
+  cases u with
+  | raw s =>
+    simp only
+    split
+    · exact ⟨hlog, FetchOK.raw _ _ _, rfl⟩
+    · exact ⟨hlog, FetchOK.raw _ _ _, rfl⟩
+  | sl base issuer page =>
+    simp only
+    split
+    · rename_i hba
+      have hba' : base = w.a.base := by simpa using hba
+      split
+      · rename_i vc n hc
+        have hp : WPrim E K { w with log := w.log ++ [Url.sl base issuer page] } ({ w with log := w.log ++ [Url.sl base issuer page] }.set false n) :=
+          WPrim.cred _ false issuer page vc n hc
+        refine ⟨.step hlog hp, ?_, rfl⟩
+        unfold FetchOK
+        intro v hv k iss p hu
+        cases hv
+        obtain ⟨_, _, hs, hpr, _⟩ := credential_served hE hw.na hc
+        have hnb := (NMono.of_credential hc).base
+        cases k
+        · have : w.a.url issuer page = Url.sl base issuer page := by rw [hba']; rfl
+          rw [this] at hs
+          exact ⟨hs, hpr⟩
+        · simp only [World.get, World.set, if_true, Bool.false_eq_true, if_false, Url.sl.injEq] at hu
+          exact absurd (hba'.symm.trans hu.1) hw.ne
+      · exact ⟨hlog, FetchOK.fail _ _, rfl⟩
+    · rename_i hba
+      split
+      · rename_i hbb
+        have hbb' : base = w.b.base := by simpa using hbb
+        split
+        · rename_i vc n hc
+          have hp : WPrim E K { w with log := w.log ++ [Url.sl base issuer page] } ({ w with log := w.log ++ [Url.sl base issuer page] }.set true n) :=
+            WPrim.cred _ true issuer page vc n hc
+          refine ⟨.step hlog hp, ?_, rfl⟩
+          unfold FetchOK
+          intro v hv k iss p hu
+          cases hv
+          obtain ⟨_, _, hs, hpr, _⟩ := credential_served hE hw.nb hc
+          have hnb := (NMono.of_credential hc).base
+          cases k
+          · simp only [World.get, World.set, if_true, Bool.false_eq_true, if_false, Url.sl.injEq] at hu
+            exact absurd (hu.1.symm.trans hbb') hw.ne
+          · have : w.b.url issuer page = Url.sl base issuer page := by rw [hbb']; rfl
+            rw [this] at hs
+            exact ⟨hs, hpr⟩
+        · exact ⟨hlog, FetchOK.fail _ _, rfl⟩
+      · exact ⟨hlog, FetchOK.fail _ _, rfl⟩
+
+
+/-- the node effect of one loop iteration of the status check is nothing, or one `update` -/
+theorem checkStatus_node {E : Env} {now : Nat} {n : Node} {st : StatusEntry} {f : Fetch} :
+    (checkStatus E now n st f).2 = n ∨
+    ∃ rec, update E now n st.list f = .ok (rec, (checkStatus E now n st f).2) ∧
+      (n.cred? st.list = none ∨ n.isManaged st.list = false) := by
+  unfold checkStatus
+  split
+  · rename_i rec n' hsl
+    have hn' : ∀ (o : Option Verdict), ((o, n') : Option Verdict × Node).2 = n' := fun _ => rfl
+    have : (n' = n) ∨ ∃ rec, update E now n st.list f = .ok (rec, n') ∧ (n.cred? st.list = none ∨ n.isManaged st.list = false) := by
+      rcases statusList_ok hsl with ⟨h1, _⟩ | ⟨h1, h2, _⟩
+      · exact Or.inl h1
+      · exact Or.inr ⟨rec, h1, h2⟩
+    split
+    · exact this
+    · split
+      · exact this
+      · split <;> exact this
+  · exact Or.inl rfl
+  · exact Or.inl rfl
+
+theorem checkStatus_path {E : Env} {K : KeyEnv} {w : World} (i : Bool) (st : StatusEntry) (f : Fetch)
+    (hf : FetchOK w st.list f) : WPath E K w (w.set i (checkStatus E w.now (w.get i) st f).2) := by
+  rcases checkStatus_node (E := E) (now := w.now) (n := w.get i) (st := st) (f := f) with h | ⟨rec, h1, h2⟩
+  · rw [h, set_get_self]; exact .refl _
+  · exact WPath.one (WPrim.update w i st.list f rec _ hf h2 h1)
+
+theorem verifyStatuses_path {E : Env} {K : KeyEnv} (hE : EnvOK E) (i : Bool) (sts : List StatusEntry) :
+    ∀ {w : World}, WInv E w → WPath E K w (verifyStatuses E i w sts).2 := by
+  induction sts with
+  | nil => intro w _; exact .refl _
+  | cons st rest ih =>
+    intro w hw
+    unfold verifyStatuses
+    split
+    · exact ih hw
+    · -- the download (if any), then the check
+      have hdl : ∃ f w1, (if needsFetch E w.now (w.get i) st.list = true then download E w st.list else (Fetch.fail, w)) = (f, w1) ∧
+          WPath E K w w1 ∧ FetchOK w1 st.list f := by
+        split
+        · obtain ⟨h1, h2, _⟩ := download_path (K := K) hE hw st.list
+          exact ⟨_, _, rfl, h1, h2⟩
+        · exact ⟨_, _, rfl, .refl _, FetchOK.fail _ _⟩
+      obtain ⟨f, w1, heq, hp1, hf⟩ := hdl
+      simp only [heq]
+      have hp2 : WPath E K w1 (w1.set i (checkStatus E w1.now (w1.get i) st f).2) := checkStatus_path i st f hf
+      have hw2 : WInv E (w1.set i (checkStatus E w1.now (w1.get i) st f).2) := ((hp1.trans hp2).nodes hw).1
+      split
+      · exact hp1.trans hp2
+      · exact (hp1.trans hp2).trans (ih hw2)
+
+theorem verify_snd (E : Env) (i : Bool) (w : World) (c : Cred) :
+    (verify E i w c).2 = w ∨ (verify E i w c).2 = (statusVerify E i w c).2 := by
+  unfold verify
+  by_cases h : (w.get i).credRevoked c = true
+  · rw [if_pos h]; exact Or.inl rfl
+  · rw [if_neg h]
+    right
+    generalize statusVerify E i w c = r
+    obtain ⟨v, w'⟩ := r
+    cases v <;> rfl
+
+theorem step_path {E : Env} {K : KeyEnv} (hE : EnvOK E) {w : World} (hw : WInv E w) (a : Act) : WPath E K w (step E K w a) := by
+  cases a with
+  | entryTx i issuer row =>
+    simp only [step]
+    split
+    · exact .refl _
+    · rename_i kid hk; exact WPath.one (WPrim.entry w i issuer kid row hk)
+  | revoke i credId e =>
+    simp only [step]
+    split
+    · rename_i n h; exact WPath.one (WPrim.revoke w i credId e n h)
+    · exact .refl _
+  | serve i issuer page =>
+    simp only [step]
+    split
+    · rename_i vc n h; exact WPath.one (WPrim.cred w i issuer page vc n h)
+    · exact .refl _
+  | verify i c =>
+    simp only [step]
+    have : WPath E K w (statusVerify E i w c).2 := by
+      unfold statusVerify
+      split
+      · exact .refl _
+      · exact verifyStatuses_path hE i _ hw
+    rcases verify_snd E i w c with h | h
+    · rw [h]; exact .refl _
+    · rw [h]; exact this
+  | register i r =>
+    simp only [step]
+    split
+    · rename_i n h; exact WPath.one (WPrim.register w i r n h)
+    · exact .refl _
+  | host url f => exact WPath.one (WPrim.env w _ w.now w.log)
+  | tick d => exact WPath.one (WPrim.env w w.hosts _ w.log)
+
+theorem run_path {E : Env} {K : KeyEnv} (hE : EnvOK E) (acts : List Act) : ∀ {w : World}, WInv E w → WPath E K w (run E K w acts) := by
+  induction acts with
+  | nil => intro w _; exact .refl _
+  | cons a rest ih =>
+    intro w hw
+    have h1 := step_path (K := K) hE hw a
+    exact h1.trans (ih (h1.nodes hw).1)
+
+/-! ## the verifier's cache of another node's list -/
+
+/-- issuer-side operations only write records of the node's own status list URLs -/
+theorem entryWrite_cred? {E : Env} {now : Nat} {n : Node} {issuer kid : String} {row : Option PageRow} {u : Url}
+    (hu : ∀ iss p, u ≠ n.url iss p) : (entryWrite E now n issuer kid row).1.cred? u = n.cred? u := by
+  unfold entryWrite
+  cases hout : entryDecide E now n issuer kid row with
+  | retry pin => rfl
+  | fail e => rfl
+  | update id last => rfl
+  | create nr rec =>
+    obtain ⟨hown, _, _, _, ⟨vc, hup⟩, _⟩ := entryDecide_create' hout
+    obtain ⟨_, hrecid, _⟩ := updateCredential_inv hup
+    simp only [Node.applyOut, Node.cred?, List.find?_cons]
+    have : (rec.id == u) = false := by
+      simp only [beq_eq_false_iff_ne, ne_eq]
+      intro e
+      exact hu nr.issuer nr.page (by rw [← e, hrecid, hown])
+    rw [this]
+
+theorem revoke_cred? {E : Env} {now : Nat} {n n' : Node} {credId : String} {e : StatusEntry} {u : Url} (hn : NInv E n)
+    (h : revoke E now n credId e = .ok n') (hu : ∀ iss p, u ≠ n.url iss p) : n'.cred? u = n.cred? u := by
+  obtain ⟨i, row, kid, vc, rec, _, _, hrow, _, _, _, hup, rfl⟩ := revoke_ok h
+  obtain ⟨hrmem, _⟩ := page?_some hrow
+  obtain ⟨_, hrecid, _⟩ := updateCredential_inv hup
+  rw [cred?_putCred]
+  have : ¬ (rec.id = u) := by
+    intro e'
+    exact hu row.issuer row.page (by rw [← e', hrecid]; exact hn.own row hrmem)
+  simp only [this, if_false]
+  rfl
+
+theorem credential_cred? {E : Env} {now : Nat} {n n' : Node} {issuer : String} {page : Nat} {vc : VC} {u : Url}
+    (h : credential E now n issuer page = .ok (vc, n')) (hu : ∀ iss p, u ≠ n.url iss p) : n'.cred? u = n.cred? u := by
+  obtain ⟨row, hrow, h1 | h1⟩ := credential_ok h
+  · obtain ⟨_, _, _, _, _, _, rfl⟩ := h1; rfl
+  · obtain ⟨kid, rec, _, hup, rfl⟩ := h1
+    obtain ⟨_, hrid⟩ := page?_some hrow
+    obtain ⟨_, hrecid, _⟩ := updateCredential_inv hup
+    rw [cred?_putCred]
+    have : ¬ (rec.id = u) := by
+      intro e'
+      exact hu issuer page (by rw [← e', hrecid, hrid])
+    simp only [this, if_false]
+
+theorem other_base_ne {w : World} {E : Env} (hw : WInv E w) (i : Bool) : (w.get (!i)).base ≠ (w.get i).base := by
+  cases i
+  · exact fun e => hw.ne e.symm
+  · exact hw.ne
+
+/-- one primitive transition and node `i`'s record for a list of the other node: it stays, or it is replaced by a freshly
+    served one (purpose revocation, bits = the other node's revocations now) -/
+theorem cache_step {E : Env} {K : KeyEnv} {w w' : World} (hw : WInv E w) (hp : WPrim E K w w') (i : Bool) (iss : String) (p : Nat) :
+    (∀ rec, (w.get i).cred? (.sl (w.get (!i)).base iss p) = some rec → ∃ rec', (w'.get i).cred? (.sl (w.get (!i)).base iss p) = some rec') ∧
+    (∀ rec', (w'.get i).cred? (.sl (w.get (!i)).base iss p) = some rec' →
+      (w.get i).cred? (.sl (w.get (!i)).base iss p) = some rec' ∨
+      (rec'.purpose = "revocation" ∧ ∀ j, getB rec'.bits j = true ↔ j ∈ (w'.get (!i)).revsOf (.sl (w.get (!i)).base iss p))) := by
+  have hne := other_base_ne hw i
+  have hown : ∀ iss' p', Url.sl (w.get (!i)).base iss p ≠ (w.get i).url iss' p' := by
+    intro iss' p' e
+    simp only [Node.url, Url.sl.injEq] at e
+    exact hne e.1
+  -- a transition of node `i` that leaves this record alone, or any transition of the other node
+  have same : ∀ (k : Bool) (n' : Node), (k = i → n'.cred? (.sl (w.get (!i)).base iss p) = (w.get i).cred? (.sl (w.get (!i)).base iss p)) →
+      (∀ rec, (w.get i).cred? (.sl (w.get (!i)).base iss p) = some rec → ∃ rec', ((w.set k n').get i).cred? (.sl (w.get (!i)).base iss p) = some rec') ∧
+      (∀ rec', ((w.set k n').get i).cred? (.sl (w.get (!i)).base iss p) = some rec' →
+        (w.get i).cred? (.sl (w.get (!i)).base iss p) = some rec' ∨
+        (rec'.purpose = "revocation" ∧ ∀ j, getB rec'.bits j = true ↔ j ∈ ((w.set k n').get (!i)).revsOf (.sl (w.get (!i)).base iss p))) := by
+    intro k n' h
+    rw [get_set]
+    by_cases hk : i = k
+    · subst hk
+      simp only [if_true]
+      rw [h rfl]
+      exact ⟨fun rec hr => ⟨rec, hr⟩, fun rec' hr => Or.inl hr⟩
+    · simp only [hk, if_false]
+      exact ⟨fun rec hr => ⟨rec, hr⟩, fun rec' hr => Or.inl hr⟩
+  cases hp with
+  | entry k issuer kid row hk => exact same k _ (fun e => by subst e; exact entryWrite_cred? hown)
+  | revoke k credId e n' h => exact same k _ (fun e' => by subst e'; exact revoke_cred? (hw.node k) h hown)
+  | cred k issuer page vc n' h => exact same k _ (fun e' => by subst e'; exact credential_cred? h hown)
+  | register k r n' h =>
+    exact same k _ (fun e' => by subst e'; obtain ⟨rfl, _⟩ := registerRevocation_ok h; rfl)
+  | env hosts now log =>
+    have : ∀ k, ({ w with hosts := hosts, now := now, log := log } : World).get k = w.get k := by intro k; cases k <;> rfl
+    rw [this, this]
+    exact ⟨fun rec hr => ⟨rec, hr⟩, fun rec' hr => Or.inl hr⟩
+  | update k u f rec n' hf hu h =>
+    by_cases hk : k = i
+    · subst hk
+      by_cases hue : u = .sl (w.get (!k)).base iss p
+      · subst hue
+        obtain ⟨v, s, hfv, hsub, _, henc, _, hid, hpurp, _, _, _, rfl⟩ := update_ok h
+        obtain ⟨⟨bits, hsub', hiff⟩, _⟩ := hf v hfv (!k) iss p rfl
+        rw [hsub] at hsub'
+        simp only [List.cons.injEq, and_true] at hsub'
+        subst hsub'
+        simp only [Enc.ok.injEq] at henc
+        subst henc
+        simp only [get_set_same, get_set_other]
+        rw [cred?_putCred]
+        simp only [hid, if_true]
+        refine ⟨fun _ _ => ⟨rec, rfl⟩, ?_⟩
+        intro rec' hr
+        simp only [Option.some.injEq] at hr
+        subst hr
+        exact Or.inr ⟨hpurp, hiff⟩
+      · refine same k _ (fun _ => ?_)
+        obtain ⟨_, _, _, _, _, _, _, hid, _, _, _, _, rfl⟩ := update_ok h
+        rw [cred?_putCred]
+        have : ¬ (rec.id = .sl (w.get (!k)).base iss p) := by rw [hid]; exact hue
+        simp only [this, if_false]
+    · exact same k _ (fun e => absurd e hk)
+
+/-- what node `i` holds about lists of the other node is never more than the other node has revoked -/
+def CacheSound (w : World) : Prop :=
+  ∀ (i : Bool) iss p rec, (w.get i).cred? (.sl (w.get (!i)).base iss p) = some rec →
+    ∀ j, getB rec.bits j = true → j ∈ (w.get (!i)).revsOf (.sl (w.get (!i)).base iss p)
+
+/-- node `i` holds a record of list `<ob>/statuslist/<iss>/<p>` of the other node with purpose revocation and bit `j` set -/
+def Pin (w : World) (i : Bool) (ob iss : String) (p j : Nat) : Prop :=
+  (w.get (!i)).base = ob ∧ ∃ rec, (w.get i).cred? (.sl ob iss p) = some rec ∧ rec.purpose = "revocation" ∧ getB rec.bits j = true
+
+theorem cache_prim {E : Env} {K : KeyEnv} {w w' : World} (hw : WInv E w) (hc : CacheSound w) (hp : WPrim E K w w') : CacheSound w' := by
+  intro i iss p rec' hr j hj
+  have hm := (hp.nodes hw).2 (!i)
+  rw [hm.base] at hr ⊢
+  rcases (cache_step hw hp i iss p).2 rec' hr with h | ⟨_, h⟩
+  · exact hm.revs _ _ (hc i iss p rec' h j hj)
+  · exact (h j).mp hj
+
+theorem pin_prim {E : Env} {K : KeyEnv} {w w' : World} (hw : WInv E w) (hc : CacheSound w) (hp : WPrim E K w w')
+    {i : Bool} {ob iss : String} {p j : Nat} (h : Pin w i ob iss p j) : Pin w' i ob iss p j := by
+  obtain ⟨hb, rec, hr, hpu, hj⟩ := h
+  have hm := (hp.nodes hw).2 (!i)
+  refine ⟨hm.base.trans hb, ?_⟩
+  subst hb
+  obtain ⟨rec', hr'⟩ := (cache_step hw hp i iss p).1 rec hr
+  refine ⟨rec', hr', ?_⟩
+  rcases (cache_step hw hp i iss p).2 rec' hr' with h | ⟨h1, h2⟩
+  · rw [hr] at h; cases h; exact ⟨hpu, hj⟩
+  · exact ⟨h1, (h2 j).mpr (hm.revs _ _ (hc i iss p rec hr j hj))⟩
+
+theorem cache_path {E : Env} {K : KeyEnv} {w w' : World} (hp : WPath E K w w') (hw : WInv E w) (hc : CacheSound w) : CacheSound w' := by
+  induction hp with
+  | refl => exact hc
+  | step h1 h2 ih => exact cache_prim (h1.nodes hw).1 ih h2
+
+theorem pin_path {E : Env} {K : KeyEnv} {w w' : World} (hp : WPath E K w w') (hw : WInv E w) (hc : CacheSound w)
+    {i : Bool} {ob iss : String} {p j : Nat} (h : Pin w i ob iss p j) : Pin w' i ob iss p j := by
+  induction hp with
+  | refl => exact h
+  | step h1 h2 ih => exact pin_prim (h1.nodes hw).1 (cache_path h1 hw hc) h2 ih
+
+theorem getB_true {bits : Bits} {j : Nat} (h : getB bits j = true) : bits.bit (j : Int) = .ok true := by
+  unfold getB at h
+  split at h
+  · rename_i b hb; rw [hb, h]
+  · cases h
+
+theorem statusList_some {E : Env} {now : Nat} {n : Node} {u : Url} {f : Fetch} {rec0 : CredRec} (h : n.cred? u = some rec0) :
+    ∃ rec n', statusList E now n u f = .ok (rec, n') := by
+  unfold statusList
+  rw [h]
+  simp only
+  split
+  · exact ⟨_, _, rfl⟩
+  · split
+    · split
+      · rename_i r _; exact ⟨r.1, r.2, rfl⟩
+      · exact ⟨_, _, rfl⟩
+    · exact ⟨_, _, rfl⟩
+
+/-- with the bit pinned, the status check of an entry naming that list and position answers revoked -/
+theorem checkStatus_pinned {E : Env} {K : KeyEnv} {w : World} (hw : WInv E w) (hc : CacheSound w) {i : Bool} {ob iss : String} {p j : Nat}
+    (hpin : Pin w i ob iss p j) (f : Fetch) (hf : FetchOK w (.sl ob iss p) f) (st : StatusEntry)
+    (hst : st.list = .sl ob iss p) (hpu : st.purpose = "revocation") (hidx : st.idx = some (j : Int)) :
+    (checkStatus E w.now (w.get i) st f).1 = some .revoked := by
+  obtain ⟨hb, rec0, hr0, hp0, hj0⟩ := hpin
+  obtain ⟨rec, n', hsl⟩ := statusList_some (E := E) (now := w.now) (f := f) hr0
+  have good : rec.purpose = "revocation" ∧ getB rec.bits j = true := by
+    rcases statusList_ok hsl with ⟨_, h2⟩ | ⟨h1, h2, _⟩
+    · rw [hr0] at h2; cases h2; exact ⟨hp0, hj0⟩
+    · have hprim : WPrim E K w (w.set i n') := WPrim.update w i _ f rec n' hf h2 h1
+      obtain ⟨_, rec', hr', hp', hj'⟩ := pin_prim hw hc hprim ⟨hb, rec0, hr0, hp0, hj0⟩
+      obtain ⟨_, _, _, _, _, _, _, hid, _, _, _, _, hn'⟩ := update_ok h1
+      rw [get_set_same, hn', cred?_putCred] at hr'
+      simp only [hid, if_true, Option.some.injEq] at hr'
+      subst hr'
+      exact ⟨hp', hj'⟩
+  unfold checkStatus
+  rw [hst, hsl]
+  simp only [hpu, good.1, hidx, getB_true good.2]
+  simp
+
+/-- a credential whose first relevant status entry names the pinned list and position is answered revoked -/
+theorem verifyStatuses_pinned {E : Env} {K : KeyEnv} (hE : EnvOK E) {i : Bool} {ob iss : String} {p j : Nat} (st : StatusEntry)
+    (hst : st.list = .sl ob iss p) (hty : st.type = "StatusList2021Entry") (hpu : st.purpose = "revocation") (hidx : st.idx = some (j : Int))
+    (post : List StatusEntry) :
+    ∀ (pre : List StatusEntry), (∀ s, s ∈ pre → s.relevant = false) →
+    ∀ {w : World}, WInv E w → CacheSound w → Pin w i ob iss p j → (verifyStatuses E i w (pre ++ st :: post)).1 = .revoked := by
+  intro pre
+  induction pre with
+  | nil =>
+    intro _ w hw hc hpin
+    have hrel : st.relevant = true := by simp [StatusEntry.relevant, hty, hpu]
+    simp only [List.nil_append, verifyStatuses, hrel, Bool.not_true, Bool.false_eq_true, if_false]
+    have hdl : ∃ f w1, (if needsFetch E w.now (w.get i) st.list = true then download E w st.list else (Fetch.fail, w)) = (f, w1) ∧
+        WPath E K w w1 ∧ FetchOK w1 st.list f := by
+      split
+      · obtain ⟨h1, h2, _⟩ := download_path (K := K) hE hw st.list
+        exact ⟨_, _, rfl, h1, h2⟩
+      · exact ⟨_, _, rfl, .refl _, FetchOK.fail _ _⟩
+    obtain ⟨f, w1, heq, hp1, hf⟩ := hdl
+    simp only [heq]
+    have hw1 := (hp1.nodes hw).1
+    have hc1 := cache_path hp1 hw hc
+    have hpin1 := pin_path hp1 hw hc hpin
+    have := checkStatus_pinned (K := K) hw1 hc1 hpin1 f (by rw [← hst]; exact hf) st hst hpu hidx
+    generalize checkStatus E w1.now (w1.get i) st f = r at this
+    obtain ⟨o, n'⟩ := r
+    simp only at this
+    subst this
+    rfl
+  | cons s rest ih =>
+    intro hpre w hw hc hpin
+    have hs : s.relevant = false := hpre s List.mem_cons_self
+    simp only [List.cons_append, verifyStatuses, hs, Bool.not_false, if_true]
+    exact ih (fun x hx => hpre x (List.mem_cons_of_mem _ hx)) hw hc hpin
+
+/-- a successful refresh of the other node's list, made when position `j` is revoked there, pins the bit -/
+theorem refresh_pins {E : Env} {w : World} {i : Bool} {iss : String} {p j : Nat} {f : Fetch} {rec : CredRec} {n' : Node}
+    (hj : j ∈ (w.get (!i)).revsOf (.sl (w.get (!i)).base iss p)) (hf : FetchOK w (.sl (w.get (!i)).base iss p) f)
+    (hup : update E w.now (w.get i) (.sl (w.get (!i)).base iss p) f = .ok (rec, n')) :
+    Pin (w.set i n') i (w.get (!i)).base iss p j := by
+  obtain ⟨v, s, hfv, hsub, _, henc, _, hid, hpurp, _, _, _, rfl⟩ := update_ok hup
+  obtain ⟨⟨bits, hsub', hiff⟩, _⟩ := hf v hfv (!i) iss p rfl
+  rw [hsub] at hsub'
+  simp only [List.cons.injEq, and_true] at hsub'
+  subst hsub'
+  simp only [Enc.ok.injEq] at henc
+  subst henc
+  refine ⟨by simp, rec, ?_, hpurp, (hiff j).mpr hj⟩
+  rw [get_set_same, cred?_putCred]
+  simp [hid]
+
+/-- on the node that manages the list, a revoked position is answered revoked by the status check (no download) -/
+theorem checkStatus_local {E : Env} (hE : EnvOK E) {n : Node} (hn : NInv E n) {u : Url} {j : Nat} (hj : j ∈ n.revsOf u)
+    (now : Nat) (f : Fetch) (st : StatusEntry) (hst : st.list = u) (hpu : st.purpose = "revocation") (hidx : st.idx = some (j : Int)) :
+    checkStatus E now n st f = (some .revoked, n) ∧ needsFetch E now n u = false := by
+  obtain ⟨rv, hrv, hl, _⟩ := revsOf_mem.mp hj
+  have hm : n.isManaged u = true := by rw [← hl]; exact hn.fk rv hrv
+  obtain ⟨rec, hrec⟩ := hn.has u hm
+  obtain ⟨_, _, _, hp, hiff⟩ := signed_served hE hn hm hrec
+  have hsl : statusList E now n u f = .ok (rec, n) := by simp [statusList, hrec, hm]
+  refine ⟨?_, by simp [needsFetch, hrec, hm]⟩
+  unfold checkStatus
+  rw [hst, hsl]
+  simp only [hp, hpu, hidx, getB_true ((hiff j).mpr hj)]
+  simp
+
+theorem verifyStatuses_local {E : Env} (hE : EnvOK E) {i : Bool} {u : Url} {j : Nat} (st : StatusEntry)
+    (hst : st.list = u) (hty : st.type = "StatusList2021Entry") (hpu : st.purpose = "revocation") (hidx : st.idx = some (j : Int))
+    (post : List StatusEntry) :
+    ∀ (pre : List StatusEntry), (∀ s, s ∈ pre → s.relevant = false) →
+    ∀ {w : World}, WInv E w → j ∈ (w.get i).revsOf u → (verifyStatuses E i w (pre ++ st :: post)).1 = .revoked := by
+  intro pre
+  induction pre with
+  | nil =>
+    intro _ w hw hj
+    have hrel : st.relevant = true := by simp [StatusEntry.relevant, hty, hpu]
+    obtain ⟨h1, h2⟩ := checkStatus_local hE (hw.node i) hj w.now Fetch.fail st hst hpu hidx
+    simp only [List.nil_append, verifyStatuses, hrel, Bool.not_true, Bool.false_eq_true, if_false, hst, h2, h1]
+  | cons s rest ih =>
+    intro hpre w hw hj
+    have hs : s.relevant = false := hpre s List.mem_cons_self
+    simp only [List.cons_append, verifyStatuses, hs, Bool.not_false, if_true]
+    exact ih (fun x hx => hpre x (List.mem_cons_of_mem _ hx)) hw hj
+
+theorem verify_of_status_revoked {E : Env} {i : Bool} {w : World} {c : Cred} (h : (statusVerify E i w c).1 = .revoked) :
+    (verify E i w c).1 = .revoked := by
+  unfold verify
+  split
+  · rfl
+  · generalize statusVerify E i w c = r at h
+    obtain ⟨v, w'⟩ := r
+    simp only at h
+    subst h
+    rfl
+
+/-- revoking a position that is already revoked answers errRevoked (and changes nothing) -/
+theorem revoke_again {E : Env} {n : Node} (hn : NInv E n) {e : StatusEntry} {i : Nat} (hi : e.idx = some (i : Int))
+    (hp : e.purpose = "revocation") (hmem : i ∈ n.revsOf e.list)
+    (hkey : ∀ row, n.page? e.list = some row → ∃ kid, E.keyOf row.issuer = some kid) (now : Nat) (credId : String) :
+    revoke E now n credId e = .err "revoked" := by
+  obtain ⟨rv, hrv, hl, hx⟩ := revsOf_mem.mp hmem
+  have hm : n.isManaged e.list = true := by rw [← hl]; exact hn.fk rv hrv
+  unfold Node.isManaged at hm
+  cases hrow : n.page? e.list with
+  | none => rw [hrow] at hm; cases hm
+  | some row =>
+    obtain ⟨kid, hk⟩ := hkey row hrow
+    have hany : (n.revs.any fun r => r.list == e.list && (r.idx : Int) == (i : Int)) = true := by
+      rw [List.any_eq_true]
+      exact ⟨rv, hrv, by simp [hl, hx]⟩
+    simp [revoke, hi, hp, hrow, hk, hany]
+
+/-- the issuer of a managed list is determined by its URL -/
+theorem page_issuer {E : Env} {n n' : Node} (hn : NInv E n) (hn' : NInv E n') (_hb : n'.base = n.base) {u : Url} {row row' : PageRow}
+    (h : n.page? u = some row) (h' : n'.page? u = some row') : row'.issuer = row.issuer := by
+  obtain ⟨hm, hid⟩ := page?_some h
+  obtain ⟨hm', hid'⟩ := page?_some h'
+  have h1 := hn.own row hm
+  have h2 := hn'.own row' hm'
+  rw [hid] at h1
+  rw [hid', h1] at h2
+  simp only [Node.url, Url.sl.injEq] at h2
+  exact h2.2.1.symm
+
+/-! ## network revocations -/
+
+/-- what `RegisterRevocation` demands of a stored revocation -/
+def Accepted (K : KeyEnv) (r : Revocation) : Prop :=
+  ∃ p pk, r.proof = some p ∧ prefixOf r.subject = r.issuer ∧ prefixOf p.vm = r.issuer ∧
+    K.resolveKey p.vm r.date = some pk ∧ K.sigOK pk r p.sig = true
+
+def NetOK (K : KeyEnv) (w : World) : Prop := ∀ k r, r ∈ (w.get k).netRevs → Accepted K r
+
+theorem entryWrite_netRevs (E : Env) (now : Nat) (n : Node) (issuer kid : String) (row : Option PageRow) :
+    (entryWrite E now n issuer kid row).1.netRevs = n.netRevs := by
+  unfold entryWrite
+  cases entryDecide E now n issuer kid row <;> rfl
+
+theorem netok_prim {E : Env} {K : KeyEnv} {w w' : World} (h : NetOK K w) (hp : WPrim E K w w') : NetOK K w' := by
+  have key : ∀ (k : Bool) (n' : Node), (∀ r, r ∈ n'.netRevs → r ∈ (w.get k).netRevs ∨ Accepted K r) → NetOK K (w.set k n') := by
+    intro k n' hn k' r hr
+    rw [get_set] at hr
+    split at hr
+    · rename_i e; subst e
+      rcases hn r hr with h1 | h1
+      · exact h k' r h1
+      · exact h1
+    · exact h k' r hr
+  cases hp with
+  | entry k issuer kid row hk => exact key k _ (fun r hr => Or.inl (by rw [entryWrite_netRevs] at hr; exact hr))
+  | revoke k credId e n' hr =>
+    obtain ⟨_, _, _, _, _, _, _, _, _, _, _, _, rfl⟩ := revoke_ok hr
+    exact key k _ (fun r hr => Or.inl hr)
+  | cred k issuer page vc n' hc =>
+    obtain ⟨row, _, h1 | h1⟩ := credential_ok hc
+    · obtain ⟨_, _, _, _, _, _, rfl⟩ := h1; exact key k _ (fun r hr => Or.inl hr)
+    · obtain ⟨_, _, _, _, rfl⟩ := h1; exact key k _ (fun r hr => Or.inl hr)
+  | update k u f rec n' hf hu hup =>
+    obtain ⟨_, _, _, _, _, _, _, _, _, _, _, _, rfl⟩ := update_ok hup
+    exact key k _ (fun r hr => Or.inl hr)
+  | register k r n' hr =>
+    obtain ⟨rfl, hacc⟩ := registerRevocation_ok hr
+    refine key k _ (fun r' hr' => ?_)
+    simp only [List.mem_append, List.mem_singleton] at hr'
+    rcases hr' with h1 | rfl
+    · exact Or.inl h1
+    · exact Or.inr hacc
+  | env hosts now log =>
+    intro k r hr
+    have : ({ w with hosts := hosts, now := now, log := log } : World).get k = w.get k := by cases k <;> rfl
+    rw [this] at hr
+    exact h k r hr
+
+theorem netok_path {E : Env} {K : KeyEnv} {w w' : World} (hp : WPath E K w w') (h : NetOK K w) : NetOK K w' := by
+  induction hp with
+  | refl => exact h
+  | step _ h2 ih => exact netok_prim ih h2
+
+/-! ## which record a status entry is judged by -/
+
+theorem checkStatus_snd_of_ok {E : Env} {now : Nat} {n n' : Node} {st : StatusEntry} {f : Fetch} {rec : CredRec}
+    (hsl : statusList E now n st.list f = .ok (rec, n')) : (checkStatus E now n st f).2 = n' := by
+  unfold checkStatus
+  rw [hsl]
+  simp only
+  split
+  · rfl
+  · split
+    · rfl
+    · split <;> rfl
+
+theorem checkStatus_revoked {E : Env} {now : Nat} {n : Node} {st : StatusEntry} {f : Fetch} (hn : NInv E n)
+    (h : (checkStatus E now n st f).1 = some .revoked) :
+    ∃ (j : Int) (rec : CredRec), st.idx = some j ∧ rec.bits.bit j = .ok true ∧ rec.id = st.list ∧ Named rec ∧
+      rec.purpose = st.purpose ∧ (checkStatus E now n st f).2.cred? st.list = some rec := by
+  cases hsl : statusList E now n st.list f with
+  | ok r =>
+    obtain ⟨rec, n'⟩ := r
+    rw [checkStatus_snd_of_ok hsl]
+    unfold checkStatus at h
+    rw [hsl] at h
+    simp only at h
+    have hrec : rec.id = st.list ∧ Named rec ∧ n'.cred? st.list = some rec := by
+      rcases statusList_ok hsl with ⟨h1, h2⟩ | ⟨h1, _, _⟩
+      · subst h1; exact ⟨(cred?_some h2).2, hn.named _ _ h2, h2⟩
+      · obtain ⟨v, s, _, hsub, hsid, henc, _, hid, _, hraw, _, _, hn'⟩ := update_ok h1
+        refine ⟨hid, ⟨s, by rw [hraw]; exact hsub, by rw [hsid, hid], henc⟩, ?_⟩
+        rw [hn', cred?_putCred]; simp [hid]
+    split at h
+    · cases h
+    · rename_i hpu
+      split at h
+      · cases h
+      · rename_i j hj
+        split at h
+        · rename_i hb
+          exact ⟨j, rec, hj, hb, hrec.1, hrec.2.1, by simpa using hpu, hrec.2.2⟩
+        · cases h
+        · cases h
+        · cases h
+  | err e => unfold checkStatus at h; rw [hsl] at h; cases h
+  | panic s => unfold checkStatus at h; rw [hsl] at h; cases h
+
+
+/-- a revoked verdict of the status check comes from a relevant status entry of the credential and from the record that
+    is stored under, and names, the list of that entry -/
+theorem verifyStatuses_revoked {E : Env} {K : KeyEnv} (hE : EnvOK E) (i : Bool) (sts : List StatusEntry) :
+    ∀ {w : World}, WInv E w → (verifyStatuses E i w sts).1 = .revoked →
+    ∃ st, st ∈ sts ∧ st.relevant = true ∧ ∃ (j : Int) (rec : CredRec), st.idx = some j ∧ rec.bits.bit j = .ok true ∧
+      rec.id = st.list ∧ Named rec ∧ rec.purpose = st.purpose := by
+  induction sts with
+  | nil => intro w _ h; simp [verifyStatuses] at h
+  | cons st rest ih =>
+    intro w hw h
+    unfold verifyStatuses at h
+    by_cases hrel : st.relevant = true
+    · simp only [hrel, Bool.not_true, Bool.false_eq_true, if_false] at h
+      have hdl : ∃ f w1, (if needsFetch E w.now (w.get i) st.list = true then download E w st.list else (Fetch.fail, w)) = (f, w1) ∧
+          WPath E K w w1 ∧ FetchOK w1 st.list f := by
+        split
+        · obtain ⟨h1, h2, _⟩ := download_path (K := K) hE hw st.list
+          exact ⟨_, _, rfl, h1, h2⟩
+        · exact ⟨_, _, rfl, .refl _, FetchOK.fail _ _⟩
+      obtain ⟨f, w1, heq, hp1, hf⟩ := hdl
+      simp only [heq] at h
+      have hw1 := (hp1.nodes hw).1
+      have hp2 : WPath E K w1 (w1.set i (checkStatus E w1.now (w1.get i) st f).2) := checkStatus_path i st f hf
+      have hw2 := (hp2.nodes hw1).1
+      cases ho : (checkStatus E w1.now (w1.get i) st f).1 with
+      | some v =>
+        have : (checkStatus E w1.now (w1.get i) st f) = (some v, (checkStatus E w1.now (w1.get i) st f).2) := by rw [← ho]
+        rw [this] at h
+        simp only at h
+        subst h
+        obtain ⟨j, rec, h1, h2, h3, h4, h5, _⟩ := checkStatus_revoked (hw1.node i) ho
+        exact ⟨st, List.mem_cons_self, hrel, j, rec, h1, h2, h3, h4, h5⟩
+      | none =>
+        have : (checkStatus E w1.now (w1.get i) st f) = (none, (checkStatus E w1.now (w1.get i) st f).2) := by rw [← ho]
+        rw [this] at h
+        simp only at h
+        obtain ⟨st', hm, rest'⟩ := ih hw2 h
+        exact ⟨st', List.mem_cons_of_mem _ hm, rest'⟩
+    · have hrel' : st.relevant = false := by simpa using hrel
+      simp only [hrel', Bool.not_false, if_true] at h
+      obtain ⟨st', hm, rest'⟩ := ih hw h
+      exact ⟨st', List.mem_cons_of_mem _ hm, rest'⟩
+
 end Nuts.C11
